@@ -601,6 +601,11 @@ class Crate:
                         n[k] = strs[v]
                 if "inputs" in n and isinstance(n["inputs"], list):
                     n["inputs"] = [strs[i] if isinstance(i, int) else i for i in n["inputs"]]
+                if n.get("k") == "Call" and str(n.get("callee", "")).startswith("SelfCtor:") and isinstance(n.get("ty"), str):
+                    # `Self(..)` inside an impl of a tuple struct is that struct's constructor: the call's own type names it
+                    import re as _re
+                    n["callee"] = _re.sub(r"<.*$", "", n["ty"])
+                    n["dk"] = "Ctor(Struct, Fn)"
                 for v in n.values():
                     if isinstance(v, (dict, list)):
                         fix(v)
